@@ -128,7 +128,10 @@ def finish_policies(g):
     for n in g.nodes:
         t = n["type"]
         if t in ("source", "machine", "splitter", "combiner"):
-            n["out_sel"] = policy_spec(rng, nout.get(n["id"], 1))
+            preset = n.get("out_sel")
+            n["out_sel"] = policy_spec(rng, nout.get(n["id"], 1))       # always drawn, so that presets do not shift the stream
+            if preset is not None:
+                n["out_sel"] = preset
         if t in ("machine", "splitter"):
             n["in_sel"] = policy_spec(rng, nin.get(n["id"], 1))
 
@@ -144,6 +147,8 @@ def build_topology(g, prop):
         tmpl = "splitter_fanin"
     if prop == "C16":
         tmpl = "combiner"
+    if prop in ("C03", "C08", "C09", "C10", "C16", "C17", "C18", "C20") and rng.random() < 0.12:
+        tmpl = "contended_unit"
     if prop in ("C08", "C15") and tmpl in ("combiner", "sinkfanin") and rng.random() < 0.6:
         tmpl = rng.choice(["fanin", "fanout", "diamond", "parallel"])
 
@@ -262,6 +267,34 @@ def build_topology(g, prop):
             g.edge(ps, sp)
         for _ in range(rng.choice([1, 2])):
             end(sp)
+    elif tmpl == "contended_unit":
+        # a combiner (or the splitter behind it) whose several capacity-1 out-edges lead to slow consumers: one out-edge is
+        # full when the unit commits to another and frees up later - the reserve-on-all / cancel-the-rest output side under back-pressure
+        n_ing = rng.choice([1, 1, 2])
+        c = g.combiner([1] + [rng.choice([1, 1, 2]) for _ in range(n_ing)])
+        ps = g.source(flow="pallet", n_items=rng.choice([6, 10, 16]), blocking=True)
+        g.edge(ps, c, force="buffer")
+        for i in range(n_ing):
+            g.edge(g.source(n_items=rng.choice([30, 40]), blocking=True), c, force="buffer")
+        u = c
+        if rng.random() < 0.5:
+            u = g.splitter()
+            g.edge(c, u)
+        u["blocking"] = rng.random() < 0.85
+        if rng.random() < 0.7:
+            u["out_sel"] = "FIRST_AVAILABLE"
+        u["pdelay"] = {"form": "const", "vals": [rng.choice([0, 0.5, 1])]}
+        for _ in range(rng.choice([2, 2, 3])):
+            if rng.random() < 0.6:
+                k = g.machine()
+                k["wc"] = 1
+                k["pdelay"] = {"form": "const", "vals": [rng.choice([3, 5, 7])]}
+                end(k)
+            else:
+                k = g.chaos_consumer() if rng.random() < 0.6 else g.sink()
+            eo = g.edge(u, k, force="buffer")
+            eo["cap"] = 1
+            eo["delay"] = rng.choice([0, 0, 0, 2])
     elif tmpl == "combiner":
         n_ing = rng.choice([1, 1, 2, 3])
         recipe = [1] + [rng.choice([1, 1, 2, 3]) for _ in range(n_ing)]
